@@ -21,7 +21,8 @@ LENIENT = ['glob order is a choice of the specification: files whose keys coinci
            'repeated population may read another tree (root per call): a name that was a file may be a directory on the '
            'way to an accepted file later (then it is a sub-map and holds no handle); outside the domain: a directory '
            'that later is a file key, a file key that later is a directory from which nothing is taken',
-           'special files: FIFOs, as rule paths only (not inside populated directories)']
+           'special files (FIFOs, dangling symbolic links) as rule paths and as entries inside populated directories, with and '
+           'without extensions the rules accept: nothing corresponds to them in the map; sockets and device nodes are not generated']
 
 
 def consts(valueerror=True, drops=True):
@@ -83,6 +84,7 @@ def check_and_replay(res, family):
         'multi_call_scenarios': sum(1 for sc in scenarios if len(sc['calls']) >= 2),
         'overlay_scenarios': sum(1 for sc in scenarios if len(sc['trees']) >= 2),
         'scenarios_with_a_fifo': sum(1 for sc in scenarios if any(t['specials'] for t in sc['trees'])),
+        'scenarios_with_special_entries_inside_directories': sum(1 for sc in scenarios if any(len(p) > 1 for t in sc['trees'] for p in t['specials'])),
         'fresh_map_scenarios': sum(1 for sc in scenarios if sc['fresh'])}
     res.cov['distinct_behaviours'] = res.cov.get('distinct_behaviours', 0) + len(g.init)
     return g
